@@ -22,13 +22,19 @@
     request: bare ACKs before the trigger position, the segment containing the trigger byte carries the
     reply of the unsegmented stream; nothing about later segments.  All corollaries of §2 need only this.
   * `SegIndep` (⇒ `SegIndepFirst`, `SegIndep.first`) — in addition every LATER segment is answered with
-    the same reply again.  True of HTTP (absorbing final state, `http_after_completion_repeats`).  It WAS
-    true of ONC-RPC while `repl_tcp` kept the parser in its final state (the stale-reply defect); since
-    the repair (the stored state is reset after a reply, `C16.rpc_tcp_state_reset`) later segments start
-    the NEXT call, `SegIndep` is false for ONC-RPC (`rpc_later_segments_not_repeated`) and the ONC-RPC
-    theorems conclude `SegIndepFirst`.  How LATER calls are answered does depend on the segmentation
-    (`rpc_later_calls_depend_on_cut`: bytes following a call in the same segment are dropped) — outside
-    the property, which speaks of the first request.
+    the same reply again.  It WAS true of both responders while they kept the parser in its final state
+    after a reply (ONC-RPC: the stale-reply defect; HTTP: every later segment — an unknown method, a junk
+    byte — answered with the 401 page again, formerly `http_after_completion_repeats`).  Since the repairs
+    (the stored state is reset after a reply: `C16.rpc_tcp_state_reset`, `C13.http_state_reset`) later
+    segments start the NEXT request, `SegIndep` is false for ONC-RPC (`rpc_later_segments_not_repeated`)
+    and for HTTP (`http_later_segments_not_repeated`), and the theorems of §3 and §4 conclude
+    `SegIndepFirst`.  `SegIndep` is no longer the conclusion of any protocol theorem: it remains as the
+    vocabulary of these two negative statements and of `c11_full_false` (and holds trivially without a
+    cookie, `segIndep_nocookie`).  How LATER requests are answered does depend on the segmentation
+    (`rpc_later_calls_depend_on_cut`, `http_later_requests_depend_on_cut`: bytes following a request in
+    the same segment are dropped) — outside the property, which speaks of the first request; what holds
+    for later requests sent one per segment is `C16.rpc_tcp_calls_all_answered` /
+    `C13.http_requests_all_answered`.
   Helper lemmas: `Proofs/C11/{Ident,Feed,Proto,Tcp}.lean`, `Proofs/RpcFix/SegFirst.lean`.
 -/
 import Masscanned.Proofs.C11.Proto
@@ -194,19 +200,23 @@ theorem seg_indep_first_leading_empty (cfg : Cfg) (env : Env) (ci : ClientInfo) 
 
 /-- **C11 for HTTP (partial: first segment contains the signature `METHOD SP /`)**: for each of the
     nine methods `m`, every continuation `a'` of the first segment and every list `segs` of further
-    segments (empty ones allowed), feeding the segments never panics and the replies are determined by
-    the stream alone: bare ACKs before the trigger position, the unsegmented reply from the segment
-    containing it on, nothing if there is no trigger position.  Holds for every client info. -/
+    segments (empty ones allowed), feeding the segments never panics and the replies of the FIRST request
+    are determined by the stream alone: bare ACKs before the trigger position, the unsegmented reply on
+    the segment containing it, nothing if there is no trigger position (`SegIndepFirst`).  Holds for every
+    client info.  Since `http::repl` resets the stored parser state after a reply, the segments after the
+    one carrying the reply belong to the next request and `SegIndep` no longer holds
+    (`http_later_segments_not_repeated`; see `C13.http_requests_all_answered`). -/
 theorem http_seg_indep_partial (cfg : Cfg) (env : Env) (ci : ClientInfo) (m : Bytes) (hm : m ∈ Spec.httpMethods)
-    (a' : Bytes) (segs : List Bytes) : SegIndep cfg env ci ((m ++ 32 :: 47 :: a') :: segs) := by
+    (a' : Bytes) (segs : List Bytes) : SegIndepFirst cfg env ci ((m ++ 32 :: 47 :: a') :: segs) := by
   by_cases hc : HasCookie ci
   · have e : m ++ 32 :: 47 :: a' = (m ++ [32, 47]) ++ a' := by simp
     rw [e]
-    exact segIndep_of_sig cfg env ci (m ++ [32, 47]) (httpBlock m) (httpOut env)
-      (fun x => ⟨ci, http_fresh cfg env ci hc m hm x⟩) (fun x d => ⟨ci, http_step cfg env ci hc m x d⟩)
+    exact segIndepFirst_of_sig cfg env ci (m ++ [32, 47]) (httpBlock m) (httpOut env) HttpBlockInv
+      (fun x => ⟨ci, http_fresh cfg env ci hc m hm x⟩) (fun x d hx => ⟨ci, http_step cfg env ci hc m x d hx⟩)
+      (fun x => httpBlock_inv m x) (fun t d ht => http_total cfg env ci hc t d ht)
       (fun n hn => protoRepl_short cfg env ci hc (http_sig m hm) n hn) (sig_ne_nil (http_sig m hm))
       (http_mono env) a' segs
-  · exact segIndep_nocookie cfg env ci hc _
+  · exact (segIndep_nocookie cfg env ci hc _).first
 
 /-- the unsegmented parser on a prefix of such a stream: answered iff the prefix contains the
     signature and the byte FSM, started after the method, has reached CONTENT; always the 401 reply.
@@ -244,22 +254,29 @@ theorem http_seg_reply (cfg : Cfg) (env : Env) (ci : ClientInfo) (m : Bytes) (hm
     simp only [Except.ok.injEq] at hR
     exact absurd hR.symm hne
 
-/-- observation (outside the property, which speaks of the first request): once the request is
-    complete the parser state is absorbing — every further segment of the flow, whatever it contains
-    (even empty), is answered with the 401 response again and the block does not change -/
-theorem http_after_completion_repeats (cfg : Cfg) (env : Env) (ci : ClientInfo) (hc : HasCookie ci) (t : Tcb)
-    (hid : t.protoId = PROTO_HTTP) (ps : HttpSt) (hps : t.protoState = some (.http ps))
-    (hcnt : ps.state = .content) (d : Bytes) :
-    protoRepl cfg env ci (some t) d = .ok (ci, some t, some (httpReplyBytes env)) := by
+/-- once the request is complete and answered, the parser state stored in the flow's block is the
+    INITIAL one (whatever the state `ps` before): the reply is the 401 response, the block is otherwise
+    unchanged, and it is a block on which the next segment is parsed as a new request
+    (`C13.FreshHttp`: `C13.http_reply_block`, `C13.http_later_junk_silent_block`).
+    (Replaces `http_after_completion_repeats`: before the repair of `http::repl` the state CONTENT was
+    kept and every further segment of the flow, whatever it contained, got the 401 response again.) -/
+theorem http_after_completion_reset (cfg : Cfg) (env : Env) (ci : ClientInfo) (hc : HasCookie ci) (t : Tcb)
+    (hid : t.protoId = PROTO_HTTP) (ps : HttpSt) (hps : t.protoState = some (.http ps)) (d r : Bytes)
+    (ci' : ClientInfo) (t' : Option Tcb) (h : protoRepl cfg env ci (some t) d = .ok (ci', t', some r)) :
+    r = httpReplyBytes env ∧ t' = some (C13.resetBlock t) ∧ C13.FreshHttp (C13.resetBlock t) := by
   rw [protoRepl_identified cfg env ci hc t (by rw [hid]; decide), hid,
-    protoHandle_http_cont cfg env ci t ps hps]
-  unfold httpRepl
-  rw [C13.http_parse_past_verb ps (by rw [hcnt]; exact ⟨by decide, by decide⟩), hcnt, C13.Aux.fold_content]
-  obtain ⟨a, b, c⟩ := t
-  obtain ⟨s1, s2, s3⟩ := ps
-  simp only at hps hcnt
-  subst hps hcnt
-  rfl
+    protoHandle_http_cont cfg env ci t ps hps] at h
+  cases hq : httpRepl env ps d with
+  | error e => rw [hq] at h; cases h
+  | ok q =>
+    obtain ⟨s', o⟩ := q
+    rw [hq] at h
+    simp only [Except.ok.injEq, Prod.mk.injEq] at h
+    obtain ⟨_, h2, h3⟩ := h
+    subst h3
+    obtain ⟨e1, e2⟩ := C13.http_state_reset env ps s' d r hq
+    subst e1
+    exact ⟨e2, h2.symm, C13.freshHttp_resetBlock hid⟩
 
 /-! ## 4. ONC-RPC over TCP -/
 
@@ -533,6 +550,43 @@ theorem rpc_later_calls_depend_on_cut :
       some [some "8000001c01020304", none] := by
   decide +kernel
 
+/-! ### HTTP after the first reply: the next request, not a repetition
+
+  Since `http::repl` resets the stored parser state, `SegIndep` (every later segment gets the first reply
+  again) is false for HTTP as well, and rightly so: that WAS the defect. -/
+
+/-- "GET / HTTP/1.1\r\n\r\n" -/
+private def getReq : Bytes := B "GET / HTTP/1.1\r\n\r\n"
+
+/-- the complete request followed by an empty segment, by an unknown method, by a junk byte -/
+private def httpThenEmpty : List Bytes := [getReq, []]
+private def httpThenJunk : List Bytes := [getReq, B "BREW / HTTP/1.1\r\n\r\n", B "x"]
+
+/-- **later segments are not answered with the first reply again**: the request is answered, the empty
+    segment gets a bare ACK (`SegIndep` would demand the 401 again); an unknown method and a junk byte
+    after the answered request get bare ACKs too.  (Replaces `http_after_completion_repeats`.) -/
+theorem http_later_segments_not_repeated :
+    repliesOf httpThenEmpty = some [some (httpReplyBytes env0), none] ∧
+    repliesOf httpThenJunk = some [some (httpReplyBytes env0), none, none] ∧
+    ¬ SegIndep cfg0 env0 ci0 httpThenEmpty ∧ ¬ SegIndep cfg0 env0 ci0 httpThenJunk :=
+  ⟨by decide +kernel, by decide +kernel,
+   not_segIndep_of httpThenEmpty 18 1 (by decide +kernel) (by decide +kernel) (by decide) (by decide +kernel),
+   not_segIndep_of httpThenJunk 18 1 (by decide +kernel) (by decide +kernel) (by decide) (by decide +kernel)⟩
+
+/-- a second request -/
+private def postReq : Bytes := B "POST /a HTTP/1.0\nHost: x\n\n"
+
+/-- observation (outside the property, which speaks of the first request): how LATER requests are answered
+    depends on the cut.  Sent as two segments both requests are answered; sent in ONE segment only the
+    first is (within a segment the bytes after the empty line are swallowed by the absorbing CONTENT
+    state); cut inside the second request, its first bytes are dropped with the first segment and the
+    rest does not make a request. -/
+theorem http_later_requests_depend_on_cut :
+    repliesOf [getReq, postReq] = some [some (httpReplyBytes env0), some (httpReplyBytes env0)] ∧
+    repliesOf [getReq ++ postReq] = some [some (httpReplyBytes env0)] ∧
+    repliesOf [getReq ++ postReq.take 10, postReq.drop 10] = some [some (httpReplyBytes env0), none] := by
+  decide +kernel
+
 /-- the identification itself is not affected: segment by segment the matcher reports the same id as on
     the whole stream — HTTP found in the second segment of `GE | T / …`, RPC in the second of the cut call -/
 example : (identSegs baseState k3Http).toOption.map (·.1) = some PROTO_HTTP ∧
@@ -547,31 +601,35 @@ example : (identSegs baseState k3Http).toOption.map (·.1) = some PROTO_HTTP ∧
 
 /-! ## 8. non-vacuity: concrete splits against the theorems' conclusions -/
 
-/-- the conclusion of `SegIndep`, computed: replies = bare ACKs before the trigger position `n`, the
-    unsegmented reply from the segment containing it on -/
+/-- the conclusion of `SegIndepFirst`, computed: trigger position `n`, the unsegmented reply `R` is a
+    reply; bare ACKs for the segments ending before `n`, `R` for the segment containing stream byte `n` -/
 private def splitOk (all : List Bytes) (n : Nat) : Bool :=
   match unsegOf all.flatten, repliesOf all with
   | some R, some rs =>
-    decide (trig cfg0 env0 ci0 all.flatten = some n) && R.isSome &&
-    decide (rs = (List.range all.length).map (fun k => if n ≤ endOff all k then R else none))
+    decide (trig cfg0 env0 ci0 all.flatten = some n) && R.isSome && decide (rs.length = all.length) &&
+    (List.range all.length).all (fun k =>
+      (if endOff all k < n then decide (rs[k]? = some none) else true) &&
+      (if begOff all k < n ∧ n ≤ endOff all k then decide (rs[k]? = some R) else true))
   | _, _ => false
 
 private def http2 : List Bytes := [B "GET" ++ 32 :: 47 :: B " HTTP/1.1\r\n", B "\r\n"]
 private def http3 : List Bytes := [B "GET" ++ 32 :: 47 :: B " HT", B "TP/1.1\r\n", B "\r\n"]
-/-- an empty segment, a body after the empty line, a segment after completion -/
+/-- an empty segment, a body after the empty line, segments after completion -/
 private def http5 : List Bytes := [B "POST" ++ 32 :: 47 :: B "a HTTP/1.0\n", [], B "Host: x\n\nbo", B "dy", []]
 
 -- hypotheses of `http_seg_indep_partial`
 example : B "GET" ∈ Spec.httpMethods ∧ B "POST" ∈ Spec.httpMethods := by decide +kernel
 -- its conclusion through the theorem …
-example : SegIndep cfg0 env0 ci0 http2 := http_seg_indep_partial cfg0 env0 ci0 (B "GET") (by decide +kernel) _ _
-example : SegIndep cfg0 env0 ci0 http3 := http_seg_indep_partial cfg0 env0 ci0 (B "GET") (by decide +kernel) _ _
-example : SegIndep cfg0 env0 ci0 http5 := http_seg_indep_partial cfg0 env0 ci0 (B "POST") (by decide +kernel) _ _
+example : SegIndepFirst cfg0 env0 ci0 http2 := http_seg_indep_partial cfg0 env0 ci0 (B "GET") (by decide +kernel) _ _
+example : SegIndepFirst cfg0 env0 ci0 http3 := http_seg_indep_partial cfg0 env0 ci0 (B "GET") (by decide +kernel) _ _
+example : SegIndepFirst cfg0 env0 ci0 http5 := http_seg_indep_partial cfg0 env0 ci0 (B "POST") (by decide +kernel) _ _
 -- … and computed on the model: trigger positions 18, 18, 26
 example : splitOk http2 18 = true ∧ splitOk http3 18 = true ∧ splitOk http5 26 = true := by decide +kernel
 example : repliesOf http3 = some [none, none, some (httpReplyBytes env0)] := by decide +kernel
-example : repliesOf http5 = some [none, none, some (httpReplyBytes env0), some (httpReplyBytes env0),
-    some (httpReplyBytes env0)] ∧ begOff http5 2 = 17 ∧ endOff http5 2 = 28 := by decide +kernel
+-- the segment containing byte 26 (the LF of the empty line) carries the 401; the two segments after it
+-- (`dy`, and an empty one) belong to the next request and get bare ACKs — not the 401 again
+example : repliesOf http5 = some [none, none, some (httpReplyBytes env0), none, none] ∧
+    begOff http5 2 = 17 ∧ endOff http5 2 = 28 := by decide +kernel
 -- a stream that is never completed: no trigger position, no reply
 example : trig cfg0 env0 ci0 (B "GET / HTTP/1.1\r\nHost: a\r\n") = none ∧
     repliesOf [B "GET / HTTP/1.1", B "\r\nHost: a\r\n"] = some [none, none] := by decide +kernel
@@ -645,7 +703,9 @@ example : (match tcpFeed cfg0 env0 ciL3 [] tcp3 with
 #print axioms http_seg_indep_partial
 #print axioms http_unseg_prefix
 #print axioms http_seg_reply
-#print axioms http_after_completion_repeats
+#print axioms http_after_completion_reset
+#print axioms http_later_segments_not_repeated
+#print axioms http_later_requests_depend_on_cut
 #print axioms rpc_seg_indep_sig
 #print axioms rpc_seg_indep_partial
 #print axioms rpc_seg_reply
